@@ -366,3 +366,128 @@ def _resize_family(ctx: Ctx, F) -> None:
                                 return False, f"extent {e} vs original {w}"
                         return True, ""
                     _guard(ctx, "T9.resize-family", f"{tag}:resample:{fac}", F["resample"], f"op=resample factor={fac} {tag}", res)
+
+
+def run_chains_resize(ctx: Ctx) -> None:
+    """Resize family applied to a grid that is itself derived (downsample of an odd size: non-integral internal size)."""
+    prog = ctx.prog
+    G = "deepali.core.grid"
+    F = {n: prog.func(G, f"Grid.{n}") for n in ("_resize", "resize", "resample", "downsample", "upsample")}
+    for D in (2, 3):
+        size = (8, 9, 7)[:D]
+        for ac in (True, False):
+            tag = f"D={D},size={size} after downsample,align_corners={ac}"
+            try:
+                env = Env(ctx, D, size, ac, fractional=True)
+            except InterpError as e:
+                _guard(ctx, "T9.resize-family", f"{tag}:base", F["downsample"], f"op=downsample (base of the chains) {tag}",
+                       lambda e=e: (False, f"raises {e}"))
+                continue
+            it, g = env.it, env.g
+            cen = STensor.from_flat(env.c, [D])
+            ce0 = it.method(g, "cube_extent")
+            ext0 = [to_rat(x) for x in it.method(g, "extent").flat()]
+
+            def keeps(g2, what):
+                if not teq(it.method(g2, "center"), cen):
+                    return False, f"{what}: center moved"
+                if not teq(it.method(g2, "direction"), env.R):
+                    return False, f"{what}: direction changed"
+                return True, ""
+            for tgt in ((5, 4, 6)[:D], (16, 17, 13)[:D]):
+                def rs(tgt=tgt):
+                    g2 = it.method(g, "resize", tgt)
+                    ok, why = keeps(g2, "resize")
+                    if not ok:
+                        return ok, why
+                    if [int(x) for x in env.size_of(g2)] != list(tgt):
+                        return False, f"size {env.size_of(g2)}"
+                    if not teq(it.method(g2, "cube_extent"), ce0):
+                        return False, "resize of a derived grid does not keep its cube extent (corner positions / physical extent)"
+                    return True, ""
+                _guard(ctx, "T9.resize-family", f"{tag}:chain-resize:{tgt}", F["_resize"], f"op=resize size={tgt} {tag}", rs)
+            for fac in (Fraction(1, 2), Fraction(3, 2), 2, Fraction(1, 3)):
+                def res(fac=fac):
+                    sp = STensor.from_flat([to_rat(x) * fac for x in it.method(g, "spacing").flat()], [D])
+                    g2 = it.method(g, "resample", sp)
+                    ok, why = keeps(g2, "resample")
+                    if not ok:
+                        return ok, why
+                    if not teq(it.method(g2, "spacing"), sp):
+                        return False, "spacing not as requested"
+                    for e, w, s2 in zip(it.method(g2, "extent").flat(), ext0, sp.flat()):
+                        d = (to_rat(e) - w) / to_rat(s2)
+                        if not d.is_const() or not (0 <= d.const_value() < 1):
+                            return False, (f"resample of a derived grid: extent {e} vs extent of the input {w} (must cover it, with less than one "
+                                           f"new spacing in excess)")
+                    return True, ""
+                _guard(ctx, "T9.resize-family", f"{tag}:chain-resample:{fac}", F["resample"], f"op=resample factor={fac} {tag}", res)
+
+            def again():
+                g2 = it.method(g, "downsample")
+                ok, why = keeps(g2, "downsample")
+                if not ok:
+                    return ok, why
+                if not teq(it.method(g2, "cube_extent"), ce0):
+                    return False, "second downsample does not keep the cube extent"
+                g3 = it.method(g2, "upsample")
+                if not teq(it.method(g3, "cube_extent"), ce0) or not teq(it.method(g3, "spacing"), it.method(g, "spacing")):
+                    return False, "downsample then upsample of a derived grid does not return its spacing / cube extent"
+                return True, ""
+            _guard(ctx, "T9.resize-family", f"{tag}:chain-down-up", F["downsample"], f"op=downsample,upsample {tag}", again)
+
+
+def run_cube_grid(ctx: Ctx) -> None:
+    """Cube.grid(): grids created over the cube of a grid (observation point of C03)."""
+    prog = ctx.prog
+    fG = prog.func("deepali.core.cube", "Cube.grid")
+    ctx.fn(fG)
+    ctx.rule("T9.cube-grid", "g.cube().grid(size | shape | spacing, align_corners) for either flag on either side: the new grid has the cube's center "
+                             "and direction, covers the same cube (cube_extent, same_domain_as), has the requested size; with the size and flag of g "
+                             "it is g again (same index->world map)")
+    for D in (2, 3):
+        size = (6, 9, 5)[:D]
+        for ac in (True, False):
+            env = Env(ctx, D, size, ac)
+            it, g = env.it, env.g
+            tag = f"D={D},size={size},align_corners={ac}"
+            cube = it.method(g, "cube")
+            ce0 = it.method(g, "cube_extent")
+            cen = STensor.from_flat(env.c, [D])
+            for flag in (True, False):
+                for how, tgt in (("size", size), ("size", (4, 7, 3)[:D]), ("shape", tuple(reversed((4, 7, 3)[:D])))):
+                    def th(flag=flag, how=how, tgt=tgt):
+                        g2 = it.method(cube, "grid", **{how: tgt}, align_corners=flag)
+                        want = list(tgt) if how == "size" else list(reversed(tgt))
+                        if [int(x) for x in env.size_of(g2)] != want:
+                            return False, f"size {env.size_of(g2)} expected {want}"
+                        if not teq(it.method(g2, "center"), cen):
+                            return False, "center of the new grid is not the cube's center"
+                        if not teq(it.method(g2, "direction"), env.R):
+                            return False, "direction changed"
+                        if it.method(g2, "align_corners") != flag:
+                            return False, "align_corners flag not as requested"
+                        if not teq(it.method(g2, "cube_extent"), ce0):
+                            return False, "cube extent of the new grid differs from the cube's extent"
+                        if not it.method(g2, "same_domain_as", g):
+                            return False, "same_domain_as(original grid) is False"
+                        if flag == ac and tuple(want) == tuple(size):
+                            return env.check_rel(g2, [1] * D, [0] * D, list(size))
+                        return True, ""
+                    _guard(ctx, "T9.cube-grid", f"{tag}:{flag}:{how}:{tgt}", fG, f"Cube.grid({how}={tgt}, align_corners={flag}) {tag}", th)
+
+                def sp(flag=flag):
+                    # spacing form: the cube extent divided by the requested spacing gives the number of cells
+                    k = 3
+                    ncell = [(n - 1 if ac else n) for n in size]
+                    spacing = STensor.from_flat([to_rat(s) / k for s in env.s], [D])
+                    g2 = it.method(cube, "grid", spacing=spacing, align_corners=flag)
+                    want = [c * k + (1 if flag else 0) for c in ncell]
+                    if [int(x) for x in env.size_of(g2)] != want:
+                        return False, f"size {env.size_of(g2)} expected {want}"
+                    if not teq(it.method(g2, "center"), cen) or not teq(it.method(g2, "cube_extent"), ce0):
+                        return False, "center / cube extent of the new grid differ from the cube's"
+                    if not teq(it.method(g2, "spacing"), spacing):
+                        return False, "spacing not as requested"
+                    return True, ""
+                _guard(ctx, "T9.cube-grid", f"{tag}:{flag}:spacing", fG, f"Cube.grid(spacing=s/3, align_corners={flag}) {tag}", sp)
